@@ -116,6 +116,48 @@ pub fn headers(ctx: &Ctx) -> Stats {
             }
         }
     }
+    // header on an input with zero records: the output is exactly the header line (both writers, library and CLI)
+    {
+        let empty: Vec<Rec> = vec![];
+        let einp = write_input(&sc, "empty", &empty, &Container::FastaSingle, None, &mut rng);
+        for k in [1usize, 3, 5] {
+            for writer in [Writer::Mmap, Writer::Batch] {
+                let cfg = OligoCfg { k, threads: 2, memory: 4 << 30, header: true, delim: ",".into(), norm: true, writer };
+                st.case(true, mix(7000 + k as u64) ^ mix(writer as u64 + 5));
+                let run = run_oligo(&einp, &sc.path("oe.kmers"), &cfg, None);
+                let case = || Json::obj().set("cfg", cfg.json()).set("input", Json::s("zero records"));
+                match run.result {
+                    Ok(Ok(())) => {
+                        if let Err((sig, msg)) = check_rows(&run.output.unwrap_or_default(), &empty, &cfg) {
+                            st.violate(&format!("{}:empty_input", sig), msg, case());
+                        }
+                    }
+                    Ok(Err(e)) => st.violate("oligo.error", e, case()),
+                    Err(p) => st.violate(&panic_sig(&p), p, case()),
+                }
+            }
+        }
+        if ctx.cli.is_some() {
+            for (k, preset, delim, counts) in [(3usize, "csv", ",", false), (5, "tsv", "\t", false), (4, "spc", " ", true)] {
+                let outp = sc.path("cli-empty.kmers");
+                let _ = std::fs::remove_file(&outp);
+                let mut args = sv(&["comp", "oligo", "-i", &einp, "-o", &outp, "-k", &k.to_string(), "-H", "-p", preset]);
+                if counts {
+                    args.push("-c".into());
+                }
+                st.case(true, mix(7100 + k as u64));
+                let res = run_cli(ctx, &args, None, &CliLimits::default());
+                let cfg = OligoCfg { k, threads: 1, memory: 0, header: true, delim: delim.into(), norm: !counts, writer: Writer::Public };
+                if res.ok() {
+                    if let Err((sig, msg)) = check_rows(&std::fs::read(&outp).unwrap_or_default(), &empty, &cfg) {
+                        st.violate(&format!("cli.{}:empty_input", sig), msg, Json::obj().set("argv", Json::s(args.join(" "))));
+                    }
+                } else if !(res.timed_out && !res.cpu_exceeded && !res.stalled) {
+                    st.violate("cli.oligo.exit:empty_input", res.describe(), Json::obj().set("argv", Json::s(args.join(" "))));
+                }
+            }
+        }
+    }
     if ctx.cli.is_some() {
         for k in 3..=7usize {
             for (preset, delim) in [("spc", " "), ("csv", ","), ("tsv", "\t")] {
